@@ -393,6 +393,45 @@ def assignment_value_family():
     return out
 
 
+def temporaries_family():
+    """Two constructs that each leave their value in a compiler temporary, side by side in one expression, in
+    every kind of slot of enclosing constructs that need temporaries themselves (then / else slots, else-if chains
+    two and three deep, cond, try, and, an assignment): each value has to come out of a variable of its own."""
+    E = lambda: T("eff", 0)
+    V = lambda i: T("var", i)
+    S = lambda: T("do", 0, [T("setv", 0, [V(3), E()]), E()])
+    TRUE = lambda: T("lit", 0, (), v=["bool", 1, []])
+    FALSE = lambda: T("lit", 0, (), v=["bool", 0, []])
+    ZERO = lambda: T("lit", 0, (), v=["int", 0, []])
+    kinds = {
+        "if": lambda: T("if", 0, [E(), S(), E()]),
+        "try": lambda: T("try", 0, [E(), T("except", 0, [E()], ts=[1], hv=0)]),
+        "and": lambda: T("and", 0, [E(), S()]),
+        "cond": lambda: T("cond", 0, [E(), S(), E(), E()]),
+        "when": lambda: T("when", 0, [E(), S()]),
+    }
+    slots = {
+        "top": lambda x: x,
+        "then": lambda x: T("if", 0, [TRUE(), x, ZERO()]),
+        "else": lambda x: T("if", 0, [FALSE(), ZERO(), x]),
+        "elif-then": lambda x: T("if", 0, [FALSE(), ZERO(), T("if", 0, [TRUE(), x, ZERO()])]),
+        "elif-else": lambda x: T("if", 0, [FALSE(), ZERO(), T("if", 0, [FALSE(), ZERO(), x])]),
+        "elif-elif-then": lambda x: T("if", 0, [FALSE(), ZERO(), T("if", 0, [FALSE(), ZERO(), T("if", 0, [TRUE(), x, ZERO()])])]),
+        "cond-2": lambda x: T("cond", 0, [FALSE(), ZERO(), TRUE(), x]),
+        "try-body": lambda x: T("try", 0, [x, T("except", 0, [ZERO()], ts=[1], hv=0)]),
+        "and-last": lambda x: T("and", 0, [TRUE(), x]),
+        "setv": lambda x: T("do", 0, [T("setv", 0, [V(2), x]), V(2)]),
+        "elif-stmt-test": lambda x: T("if", 0, [FALSE(), ZERO(), T("if", 0, [T("do", 0, [T("setv", 0, [V(3), E()]), TRUE()]), x, ZERO()])]),
+    }
+    out = []
+    for a, ka in kinds.items():
+        for b, kb in kinds.items():
+            for sn, sl in slots.items():
+                out.append(T("do", 0, [sl(T("args", "list", [ka(), kb()]))]))
+                out.append(T("do", 0, [sl(T("args", "list", [ka(), E(), kb()]))]))
+    return out
+
+
 def main_c01(run):
     rng = random.Random(run.seed)
     q = run.quick
@@ -404,6 +443,10 @@ def main_c01(run):
     acases = build_cases(run, afam + [wrap_in_fn(t, 4) for t in afam], rng, nv, fault_limit=2 if q else 5, scripts=1 if q else 3)
     run.log(f"assignment-value family: {len(afam)} programs at module and function level, {len(acases)} executions")
     decide(run, acases, nv, "c01-assign-value", explore_small=0)
+    tfam = temporaries_family()
+    tcases = build_cases(run, tfam, rng, nv, fault_limit=0 if q else 2, scripts=2 if q else 5)
+    run.log(f"temporaries family: {len(tfam)} programs, {len(tcases)} executions")
+    decide(run, tcases, nv, "c01-temporaries", explore_small=0)
     fam = truthiness_timing_family()
     fcases = [observe(t, sc, {}, {}, nv, tag="box") for t, sc in fam] + \
              [observe(wrap_in_fn(t, 4), sc, {}, {}, nv, tag="box in fn") for t, sc in fam]
